@@ -13,6 +13,7 @@ RPC library are outside any model; the `fuzz` run searches for them.
 import GoNfsd.Model.Guards
 import GoNfsd.Lemmas.XdrBound
 import GoNfsd.Lemmas.FsStep
+import GoNfsd.Lemmas.Dirty
 
 namespace GoNfsd.Props.C11
 open GoNfsd.Model.Guards GoNfsd.Gen.Consts
@@ -94,5 +95,29 @@ theorem resolve_in_table (s : GoNfsd.Model.Fs.FS) (fh : GoNfsd.Model.Fs.Bytes) (
 /-- Non-vacuity: the inputs of the repaired crash. -/
 example : writeRefusedU64 (UInt64.ofNat (2 ^ 64 - 10)) 20 = true := by decide
 example : (bmapPath 262151).inRange := index_in_range 262151 (by decide)
+
+/-! ### the work of a request is bounded by its arguments (block-map model M7) -/
+
+open GoNfsd.Model.BlockMap in
+/-- STEP WORK IS BOUNDED.  Every function of the block-map model is total (structural recursion:
+    Lean accepts no other), so no argument makes mapping or truncation loop; and the resources
+    they take are bounded by the arguments: one mapping takes at most three blocks from the
+    allocator, a WRITE of `n` file blocks at most `3 n`, and neither ever takes a block back out
+    of thin air (the allocator stream only shrinks). -/
+theorem step_work_bounded (s : S) (ino : Ino) (bn n : Nat) :
+    ((bmap s ino.blks bn).1.allocs.length ≤ s.allocs.length ∧
+      s.allocs.length ≤ (bmap s ino.blks bn).1.allocs.length + 3) ∧
+    ((writeBlocks s ino bn n 0).1.allocs.length ≤ s.allocs.length ∧
+      s.allocs.length ≤ (writeBlocks s ino bn n 0).1.allocs.length + 3 * n) :=
+  ⟨bmap_allocs_at_most_three s ino.blks bn, writeBlocks_allocs bn n s ino 0⟩
+
+open GoNfsd.Model.BlockMap in
+/-- … and a truncation only ever ZEROES cells and takes nothing from the allocator, whatever the
+    sizes involved (up to 2^64 in the arguments of SETATTR: the run of `Shrink` is bounded by the
+    file's own block count, which the bookkeeping invariant bounds by the block map's reach). -/
+theorem truncation_takes_nothing (s : S) (blks : List Nat) (T N : Nat) (hl : blks.length = NDIRECT + 2)
+    (hinj : InjB s.st blks) (hN : N ≤ MAXBLKS) (hemp : EmptyFrom s.st blks N) :
+    (shrinkTo s blks T N).1.allocs = s.allocs :=
+  (shrinkTo_ok T N s blks hl hinj hN hemp).2.2.2.2
 
 end GoNfsd.Props.C11
